@@ -146,7 +146,7 @@ template<class T> static void tdef_one(const char* tn, int id, int kind, uint64_
     Q ref[9]; Q mag[9]; int nout=0;
     if(kind==1){ for(int i=0;i<9;i++) x[i]=r(); auto A=[&](int i,int j){ return (Q)x[3*i+j]; }; int sl[6][2]={{0,0},{0,1},{0,2},{1,1},{1,2},{2,2}}; nout=6; for(int k=0;k<6;k++){ int i=sl[k][0], j=sl[k][1]; ref[k]=(A(i,j)+A(j,i))/2; mag[k]=(fabsq(A(i,j))+fabsq(A(j,i)))/2; } }
     else if(kind==2){ x[0]=std::fabs(r()); x[9]=std::fabs(r()); Q v=(Q)x[0]*(Q)x[9]/3; nout=6; Q z[6]={v,0,0,v,0,v}; for(int k=0;k<6;k++){ ref[k]=z[k]; mag[k]=fabsq(v); } }
-    else if(kind==3){ for(int i=0;i<6;i++) x[i]=r(); Q s[6]; for(int i=0;i<6;i++) s[i]=x[i]; Q v=((s[0]-s[3])*(s[0]-s[3])+(s[3]-s[5])*(s[3]-s[5])+(s[5]-s[0])*(s[5]-s[0])+6*(s[1]*s[1]+s[2]*s[2]+s[4]*s[4]))/2; nout=1; ref[0]=sqrtq(v); Q m=0; for(int i=0;i<6;i++) m=fmaxq(m,fabsq(s[i])); mag[0]=fmaxq(ref[0], m); }
+    else if(kind==3){ for(int i=0;i<6;i++) x[i]=r(); if(t%%3==1){ /* nearly hydrostatic: a large isotropic part plus a small deviator (the differences of the normal components cancel) */ T p=(T)std::ldexp((T)(1.0+std::fabs(U(g))),ex+8)*((g()&1)?1:-1); int k=4+(int)(g()%%(unsigned)(std::numeric_limits<T>::digits-8)); for(int i=0;i<6;i++){ T dv=(T)std::ldexp(U(g),ex+8-k); bool diag=(i==0||i==3||i==5); x[i]= diag? p+dv : dv; } } Q s[6]; for(int i=0;i<6;i++) s[i]=x[i]; Q v=((s[0]-s[3])*(s[0]-s[3])+(s[3]-s[5])*(s[3]-s[5])+(s[5]-s[0])*(s[5]-s[0])+6*(s[1]*s[1]+s[2]*s[2]+s[4]*s[4]))/2; nout=1; ref[0]=sqrtq(v); mag[0]=ref[0]; /* true relative error: the differences of the normal components are formed first, so no credit for cancellation is needed */ }
     else if(kind==4 || kind==6){ for(int i=0;i<6;i++) x[i]=r(); int nd = kind==4? 3:2; T d[3]={0,0,0}; Q l2=0; for(int i=0;i<nd;i++){ d[i]=(T)U(g); l2+=(Q)d[i]*d[i]; } if(l2==0){ d[0]=1; l2=1; }
       for(int i=0;i<nd;i++) x[9+i]=d[i];   // the harness normalises: the unit vector the library sees is d/|d| rounded to T; use the exact normalised one with a looser budget
       Q nn[3]={0,0,0}; Q ln=sqrtq(l2); for(int i=0;i<nd;i++) nn[i]=(Q)d[i]/ln; Q S[3][3]={{(Q)x[0],(Q)x[1],(Q)x[2]},{(Q)x[1],(Q)x[3],(Q)x[4]},{(Q)x[2],(Q)x[4],(Q)x[5]}}; nout=nd; for(int i=0;i<nd;i++){ ref[i]=0; mag[i]=0; for(int j=0;j<3;j++){ ref[i]+=S[i][j]*nn[j]; mag[i]+=fabsq(S[i][j]*nn[j]); } } }
